@@ -6,6 +6,8 @@
 //
 // lines (keys/values/triggers hex, "-" = empty, "e" = the empty trigger name; see lean/Cppcms/C10/Driver.lean):
 //   cfg <srvlimit,..> <l1,..>      (l1: n = no L1, else the L1's limit)
+//   drop                           every server's front-end restarted on its port over the same caches: all client
+//                                  connections are dead; the next call of every client must reconnect and re-send
 //   reset                          same cluster, every server cache and every L1 cleared directly (generation
 //                                  counters keep running); saves the connections of a fresh cluster
 //   fetch <c> <now> <key> <0|1> | store <c> <now> <key> <val> <trigs> <deadline> | rise <c> <t> | clear <c>
@@ -102,6 +104,7 @@ static uint32_t rd32(char const *p) { uint32_t v; memcpy(&v,p,4); return v; }
 struct server_node {
 	cache_ptr cache;
 	std::unique_ptr<tcp_cache_service> svc;
+	booster::shared_ptr<cppcms::sessions::session_storage_factory> sess;
 	int port;
 	int rawfd;
 	server_node():port(0),rawfd(-1){}
@@ -192,7 +195,8 @@ static std::string do_cfg(std::string const &sl,std::string const &ll)
 		for(int attempt=0;;attempt++) {
 			n->port=free_port();
 			// every server also gets a session storage (session_memory_storage), as cppcms_scale configures it
-			try { n->svc.reset(new tcp_cache_service(n->cache,sfact(new cppcms::sessions::session_memory_storage_factory()),1,"127.0.0.1",n->port)); break; }
+			if(!n->sess) n->sess.reset(new cppcms::sessions::session_memory_storage_factory());
+			try { n->svc.reset(new tcp_cache_service(n->cache,n->sess,1,"127.0.0.1",n->port)); break; }
 			catch(std::exception const &e) { if(attempt>50) throw; }
 		}
 		ips.push_back("127.0.0.1"); ports.push_back(n->port);
@@ -411,6 +415,21 @@ static std::string run1(std::vector<std::string> const &w)
 {
 	if(w.empty()) return "bad-op";
 	if(w[0]=="cfg" && w.size()==3) return do_cfg(w[1],w[2]);
+	if(w[0]=="drop" && w.size()==1) {
+		// fault: the network front-end of every server is stopped and started again on the same port over the same
+		// mem_cache and session storage (nothing is lost); every established client connection is dead afterwards.
+		// messenger::transmit must notice, reconnect and RE-SEND: the drop is invisible to the callers.
+		for(size_t i=0;i<servers.size();i++) {
+			server_node &n=*servers[i];
+			if(n.rawfd>=0) { close(n.rawfd); n.rawfd=-1; }
+			n.svc.reset();
+			for(int attempt=0;;attempt++) {
+				try { n.svc.reset(new tcp_cache_service(n.cache,n.sess,1,"127.0.0.1",n.port)); break; }
+				catch(std::exception const &) { if(attempt>400) throw; usleep(10000); }
+			}
+		}
+		return "ok"+tail();
+	}
 	if(w[0]=="reset" && w.size()==1) {
 		for(size_t i=0;i<servers.size();i++) servers[i]->cache->clear();
 		for(size_t i=0;i<clients.size();i++) if(clients[i].l1) clients[i].l1->clear();
